@@ -283,6 +283,13 @@ class M(Model):
         ready = sum(int(alev[k]) for k in near) >= int(flev[f])
         ring = {q for q in ((food[0] - 1, food[1]), (food[0] + 1, food[1]), (food[0], food[1] - 1), (food[0], food[1] + 1))
                 if self._inside(q) and q not in live and q not in cells}
+        # patient variant (foods on even cells): nobody loads before every side of the food that can be occupied is
+        # occupied - up to four agents load the same food in the same step
+        if (food[0] + food[1]) % 2 == 0 and not eager and ring and len(near) < self.A:
+            reachable = any(bfs_first_step(lambda q: self._inside(q) and q not in live and q not in cells,
+                                           cells[k], ring) is not None for k in range(self.A) if k not in near)
+            if reachable:
+                ready = False
         claimed = set()
         for k in range(self.A):
             if k in near:
